@@ -74,6 +74,13 @@ func VP_C17_handshake() {
 			// the next step is served: with no cookie callback configured it succeeds
 			vpReach("advanced")
 			vpAssert(len(tr.out) == 2 && vpLE16(tr.out[1], 0) == 5 && vpLE32(tr.out[1], 10) == 0, "following-tunnel-create-served")
+		} else {
+			// anything else at this point — a further handshake request included, whatever it offers — is out
+			// of order: it is not answered with a success status and the tunnel ends
+			if len(tr.out) >= 2 && len(tr.out[1]) >= 12 {
+				vpAssert(vpLE32(tr.out[1], 8) != 0, "a-further-handshake-or-other-out-of-order-packet-is-not-answered-with-success")
+			}
+			vpAssert(err != nil || tr.pos < 2, "tunnel-ends-on-an-out-of-order-packet-after-the-handshake")
 		}
 	} else {
 		vpReach("refuse")
@@ -82,4 +89,60 @@ func VP_C17_handshake() {
 		vpAssert(len(tr.out) == 1, "nothing-further-answered")
 		vpAssert(tr.pos <= 1, "nothing-further-read")
 	}
+}
+
+
+//vp:property C17 C07
+//vp:bounds two tunnels on one Gateway handshake at the same time: A's response is in flight to a slow client while B (other version bytes, other capability word; all values symbolic) completes its own handshake; 4 server settings
+//vp:assume one cooperative schedule: B's handshake is served in full while A's response is being written
+//vp:reach both
+func VP_C17_two_tunnels() {
+	sc, paa := vpBool("sc"), vpBool("paa")
+	gw := &Gateway{SmartCardAuth: sc, TokenAuth: paa}
+	server := vpB2U(sc)*1 | vpB2U(paa)*2
+	mk := func(tag string) (*vpTransport, []byte) {
+		body := []byte{vpU8("major-" + tag), vpU8("minor-" + tag), 0, 0, vpU8("caps-lo-" + tag), vpU8("caps-hi-" + tag)}
+		return &vpTransport{in: [][]byte{vpPacket(PKT_TYPE_HANDSHAKE_REQUEST, body)}}, body
+	}
+	trA, bodyA := mk("a")
+	trB, bodyB := mk("b")
+	trA.stallWrites = true
+	run := func(tr *vpTransport) {
+		tun := &Tunnel{transportIn: tr, transportOut: tr, User: vpUser()}
+		NewProcessor(gw, tun).Process(vpCtx())
+	}
+	done := make(chan bool, 1)
+	go func() {
+		run(trB)
+		done <- true
+	}()
+	run(trA)
+	<-done
+	vpReach("both")
+	check := func(tr *vpTransport, body []byte, who string) {
+		vpAssert(len(tr.out) == 1, who+"-gets-one-response")
+		if len(tr.out) != 1 {
+			return
+		}
+		r := tr.out[0]
+		vpAssert(len(r) == 18 && vpLE16(r, 0) == 2 && vpLE32(r, 4) == 18, who+"-response-header")
+		if len(r) != 18 {
+			return
+		}
+		client := vpLE16(body, 4)
+		accept := (client == 0 && server == 0) || client&server != 0
+		status := vpLE32(r, 8)
+		vpAssert((status == 0) == accept, who+"-status0-iff-its-own-offer-is-acceptable")
+		if accept {
+			vpAssert(r[12] == body[0] && r[13] == body[1], who+"-own-version-bytes-echoed")
+			vpAssert(vpLE16(r, 16) == server, who+"-caps-field-is-server-mask")
+		} else {
+			vpAssert(status == 0x800759E9, who+"-capability-mismatch-status")
+		}
+	}
+	check(trA, bodyA, "slow-client")
+	check(trB, bodyB, "other-client")
+	// what the slow client reads is what was built for it: the bytes handed to its connection do not change
+	// while they are being sent
+	vpAssert(trA.corrupted == 0 && trB.corrupted == 0, "a-response-does-not-change-while-it-is-in-flight-to-its-client")
 }
